@@ -17,7 +17,16 @@ CHECKS = {
  "C02": ("exploration", "e2e", "Seeded search over body sizes/framings/encodings/statuses x WARC pool/dedupe/discard settings x schedules; an independent WARC reader scans the job's files at every finish event and compares request/response/revisit records with the bytes the simulated origin actually sent (SHA-1, length, status); discarded responses must be absent.", "DESIGN.md 4/C02"),
  "C03": ("fault_enumeration", "e2e", "Per sampled scenario and configuration-matrix point (proxy/direct, sync/async WARC, limiter, workers, pool, seencheck) a profiling run enumerates the pipeline's progress events; one run per (event kind, occurrence) issues controler.Stop() there, plus stops while paused (operator, disk watchdog), during resume, at start and after drain. Oracle: Stop() returns within a simulated-time bound, no crash, no .open file, every WARC file parses to EOF as complete records with intact request/response pairs.", "DESIGN.md 4/C03"),
  "C04": ("fault_enumeration", "e2e", "Two real OS processes per case: the first is SIGKILLed at an enumerated (instrumented point, occurrence), inside WARC write #k with a torn tail, or at a seeded scheduler step (or stopped gracefully); the second restarts on the same job directory, fault-free, to quiescence. Oracle: rows not reported finished are handed out and requested again and none stays CLAIMED; rows deleted as finished have their accepted captures in the WARC files left on disk; those files parse record by record up to a torn tail of an .open file only.", "DESIGN.md 4/C04"),
+ "C05": ("exploration", "e2e", "Seeded search over filter sets x URL texts planted as seeds, redirect targets and assets; every request and every connection that reaches the simulated network is judged by a reference scope predicate written from the statement.", "DESIGN.md 4/C05"),
  "C06": ("exploration", "e2e", "Seeded search over adversarial origins (redirect chains/loops, nested resources, always-failing URLs) x limits; oracle over the origin log and queue hand-offs: chain length, asset depth, attempts per visit, pipeline passes, hop arithmetic.", "DESIGN.md 4/C06"),
+ "C07": ("exploration", "e2e", "Generated HTML documents (attribute x quoting x reference form x nesting x decoys) crawled end to end; planted requisites, resolved by an independent resolver, must be requested before the page's seed is finished; anchors must reach the queue.", "DESIGN.md 4/C07"),
+ "C08": ("exploration", "e2e", "Every seen-store check observed in simulated crawls is judged against a reference model of completed records stamped with scheduler steps (completed-before-started must be honoured; seen only if recorded; seen implies skipped; no URL fetched by two non-seed nodes of one tree).", "DESIGN.md 4/C08"),
+ "C09": ("exploration", "e2e", "Every canonical URL flowing through simulated crawls is re-rendered from fresh objects under other simulator-owned map-iteration orders, re-normalised (idempotence), shape-checked, and compared with the request line the origin received.", "DESIGN.md 4/C09"),
+ "C11": ("exploration", "e2e", "Monitor at every stage boundary of simulated crawls: independent well-formedness of the item tree via public getters, uniqueness after de-duplication, and 'declared complete <=> no node awaits fetching or post-processing' at the finisher's decision.", "DESIGN.md 4/C11"),
+ "C12": ("exploration", "comp", "Component simulation of the reactor API under concurrent producers/consumers/freeze with simulator-owned select tie-breaks: bounded in-flight seeds, table = accepted-unfinished, feedback/finish semantics incl. unknown ids and repeats, delivery of accepted seeds, no insert after freeze, no deadlock.", "DESIGN.md 4/C12"),
+ "C13": ("exploration", "comp", "Component simulation of the per-host limiter on the fake clock: window bound on release instants, penalty lower bounds and cap, state ranges from limiter snapshots, over capacities/rates/streaks/gaps and concurrent waiters.", "DESIGN.md 4/C13"),
+ "C14": ("exploration", "comp", "Component simulation of the pause manager with worker-shaped subscribers and several independent controllers running matched/unmatched pause/resume scripts, worker exits and shutdown: every call returns, no work between acknowledgement and resume, resume wakes all.", "DESIGN.md 4/C14"),
+ "C17": ("exploration", "e2e", "Conservation in simulated crawls: totals (URLs crawled, seeds finished), worker gauges (live workers while running, 0 after stop) and the mean response time are compared with ground truth counted from hook events at idle and after stop.", "DESIGN.md 4/C17"),
 }
 
 NA_REASON = "check under construction in this round; see DESIGN.md section 4 for the planned simulation"
